@@ -67,7 +67,7 @@ def plan_seeds(n, thorough):
 
 def run(ctx):
     rng = ctx.rng
-    n = ctx.n(260, 2000)
+    n = ctx.n(225, 2000)
     histories = [G.history_c09(rng) for _ in range(n)]
     # regression corpus first: defect 15 (open_span leak) on the four writers that have the flag
     histories = CORPUS + histories
@@ -213,6 +213,11 @@ def run(ctx):
     return res
 
 
+ATTRS = {(2, 1): "_captions", (2, 2): "_styles", (2, 3): "layout_info", (3, 1): "layout_info",
+         (4, 1): "start", (4, 2): "end", (4, 3): "nodes", (4, 4): "style", (4, 5): "layout_info",
+         (5, 1): "type_", (5, 2): "content", (5, 3): "start", (5, 4): "layout_info", (5, 5): "position"}
+
+
 def heap_program_stream(histories, r, res):
     """wave 7: the writers executed as HEAP PROGRAMS (coq/model/HeapProg.v, request 902) on the same histories.
     (a) program model vs real heap: snapshots of every set after every op and the other property-level observations
@@ -230,6 +235,8 @@ def heap_program_stream(histories, r, res):
     batch = [C.model_ops(h, o, r["pristine"]) for h, o in zip(histories, r["results"])]
     progs = C.run_model(batch, 902)
     n_writes, by_writer, assigned, raised, emitting = 0, {}, 0, 0, 0
+    tr_cmp = tr_eq = tr_len = tr_input = 0
+    tr_ex = []
     details, mm = [], 0
     for hi, (h, o, mp, ms) in enumerate(zip(histories, r["results"], progs, r["models"])):
         for d in C.compare(h, o, mp, r["pristine"], "C09"):
@@ -246,7 +253,7 @@ def heap_program_stream(histories, r, res):
                 continue
             n_writes += 1
             by_writer[op["kind"]] = by_writer.get(op["kind"], 0) + 1
-            assigned += 1 if b["fp"] else 0
+            assigned += 1 if any(x[0] < 1000 for x in b["fp"]) else 0
             raised += 1 if b["err"] else 0
             emitting += 1 if b["tokens"] else 0
             for key in ("err", "copies", "changed_below", "tokens", "open"):
@@ -254,6 +261,23 @@ def heap_program_stream(histories, r, res):
                     mm += 1
                     r["disagreements"].append((hi, {"i": i, "what": "heap program vs store model: %s" % key,
                                                     "model": a[key], "impl": b[key]}))
+            # the ORDERED store trace of the program (attribute assignments to class instances that existed when the
+            # last deepcopy returned) vs the attribute assignments the real write() performed on input / copy objects
+            # (recorded through __setattr__ hooks in the worker); compared when both exit the same way
+            mtrace = [[C.KIND_CLASS[x[0] - 1000], ATTRS.get((x[0] - 1000, x[1]), str(x[1]))] for x in reversed(b["fp"]) if x[0] >= 1000]
+            rtrace = [[c_, a_] for c_, a_, _ in o[i].get("store_trace", [])]
+            if (o[i].get("err") or 0) == b["err"] and "store_trace" in o[i] and len(rtrace) < 600:
+                tr_cmp += 1
+                tr_len += len(rtrace)
+                if any(r_ == "input" for _, _, r_ in o[i]["store_trace"]):
+                    tr_input += 1
+                if mtrace == rtrace:
+                    tr_eq += 1
+                elif len(tr_ex) < 4:
+                    tr_ex.append({"op": {k_: v_ for k_, v_ in op.items() if k_ in ("kind", "wopts", "kw")},
+                                  "model": mtrace[:12], "impl": rtrace[:12], "lengths": [len(mtrace), len(rtrace)]})
+            b = dict(b)
+            b["fp"] = [x for x in b["fp"] if x[0] < 1000]
             if set(a["fp"]) != set(b["fp"]):
                 mm += 1
                 r["disagreements"].append((hi, {"i": i, "what": "heap program vs store model: footprint on the copy",
@@ -272,6 +296,10 @@ def heap_program_stream(histories, r, res):
                              "writes_that_raise": raised, "mismatches_with_store_model": mm,
                              "ownership_and_assigned_before_read_analyses_8_accepted_11_variants_rejected": bool(ok903),
                              "writes_that_emit_tokens": emitting,
+                             "ordered_store_trace_vs_real_setattr_trace": {"writes_compared": tr_cmp, "equal": tr_eq,
+                                                                           "assignments_in_the_real_traces": tr_len,
+                                                                           "real_traces_with_an_assignment_to_an_INPUT_object": tr_input,
+                                                                           "mismatch_examples": tr_ex},
                              "detail_mismatches_with_code": counts,
                              "detail_examples": list({json.dumps([d["detail"], histories[hi][d["i"]].get("kind"),
                                                                   sorted(histories[hi][d["i"]].get("wopts") or {}), d.get("model"), d.get("impl")]):
